@@ -130,34 +130,34 @@ theorem printArgs_cons2 (a b : Expr) (bs : List Expr) :
 
 /-- what parsing `print e` does, see the head of the file -/
 def Main (e : Expr) : Prop :=
-  WF e → ∀ (fs : List Frame) (K : List Ctx), (∀ f ∈ fs, f.prec < lowPrec e) →
+  WF e → Plain e → ∀ (fs : List Frame) (K : List Ctx), (∀ f ∈ fs, f.prec < lowPrec e) →
     ∃ x gs, run ⟨.operand, fs, K⟩ (print e) = some ⟨.operator x, gs, K⟩ ∧
       ∀ q, q ≤ lowPrec e → reduce q x gs = reduce q (norm e) fs
 
 /-- the same for the argument list of a call, up to and including the closing parenthesis -/
 def MainArgs (args : List Expr) : Prop :=
-  WFArgs args → args ≠ [] → ∀ (fs : List Frame) (K : List Ctx) (f : Expr) (pre : List Expr),
+  WFArgs args → PlainArgs args → args ≠ [] → ∀ (fs : List Frame) (K : List Ctx) (f : Expr) (pre : List Expr),
     run ⟨.operand, [], .call fs f pre :: K⟩ (printArgs args ++ [.rparen]) =
         some ⟨.operator (.call f (pre ++ normArgs args) false), fs, K⟩ ∧
     run ⟨.operand, [], .call fs f pre :: K⟩ (printArgs args ++ [.ellipsis, .rparen]) =
         some ⟨.operator (.call f (pre ++ normArgs args) true), fs, K⟩
 
 /-- a complete expression inside brackets: the path is empty, so the result closes to `norm e` -/
-theorem Main.closed {e : Expr} (h : Main e) (wf : WF e) (K : List Ctx) :
+theorem Main.closed {e : Expr} (h : Main e) (wf : WF e ∧ Plain e) (K : List Ctx) :
     ∃ x gs, run ⟨.operand, [], K⟩ (print e) = some ⟨.operator x, gs, K⟩ ∧ closeAll x gs = norm e := by
-  obtain ⟨x, gs, hr, hq⟩ := h wf [] K (by simp)
+  obtain ⟨x, gs, hr, hq⟩ := h wf.1 wf.2 [] K (by simp)
   refine ⟨x, gs, hr, ?_⟩
   have := closeAll_eq_of_reduce (hq 0 (Nat.zero_le _))
   simpa [closeAll] using this
 
 /-- an operand as the printer writes it: in parentheses (`c`) or as it is -/
-theorem operand {e : Expr} (h : Main e) (wf : WF e) (c : Bool) (fs : List Frame) (K : List Ctx)
+theorem operand {e : Expr} (h : Main e) (wf : WF e ∧ Plain e) (c : Bool) (fs : List Frame) (K : List Ctx)
     (hfs : c = false → ∀ f ∈ fs, f.prec < lowPrec e) :
     ∃ x gs, run ⟨.operand, fs, K⟩ (wrap c (print e)) = some ⟨.operator x, gs, K⟩ ∧
       ∀ q, q ≤ (if c then uprec + 1 else lowPrec e) → reduce q x gs = reduce q (wrapP c (norm e)) fs := by
   cases c with
   | false =>
-    obtain ⟨x, gs, hr, hq⟩ := h wf fs K (hfs rfl)
+    obtain ⟨x, gs, hr, hq⟩ := h wf.1 wf.2 fs K (hfs rfl)
     exact ⟨x, gs, by simpa [wrap] using hr, by simpa [wrapP] using hq⟩
   | true =>
     obtain ⟨x, gs, hr, hc⟩ := h.closed wf (.paren fs :: K)
@@ -170,7 +170,7 @@ theorem operand {e : Expr} (h : Main e) (wf : WF e) (c : Bool) (fs : List Frame)
 
 /-- an operand that ends above every operator (in parentheses, or not an operator): the state after
 it is exact -/
-theorem operand_exact {e : Expr} (h : Main e) (wf : WF e) (c : Bool) (fs : List Frame) (K : List Ctx)
+theorem operand_exact {e : Expr} (h : Main e) (wf : WF e ∧ Plain e) (c : Bool) (fs : List Frame) (K : List Ctx)
     (hc : c = false → lowPrec e = uprec + 1) :
     run ⟨.operand, fs, K⟩ (wrap c (print e)) = some ⟨.operator (wrapP c (norm e)), fs, K⟩ := by
   have hfs : c = false → ∀ f ∈ fs, f.prec < lowPrec e := by
@@ -220,26 +220,27 @@ theorem needs_false_lt {rule : Nat → Bool} {e : Expr} {p : Nat} (h : needs rul
 /-! ### the cases -/
 
 theorem main_ident (n : Nat) : Main (.ident n) := by
-  intro _ fs K _
+  intro _ _ fs K _
   exact main_of_exact (e := .ident n) (by simp [print, norm, run, step])
 
 theorem main_lit (n : Nat) : Main (.lit n) := by
-  intro _ fs K _
+  intro _ _ fs K _
   exact main_of_exact (e := .lit n) (by simp [print, norm, run, step])
 
 theorem main_paren (e : Expr) (ih : Main e) : Main (.paren e) := by
-  intro wf fs K hfs
+  intro wf pl fs K hfs
   have wf' : WF e := by simpa [WF] using wf
+  have pl' : Plain e := by simpa [Plain] using pl
   rw [lowPrec_paren] at hfs
-  obtain ⟨x, gs, hr, hq⟩ := ih wf' fs K hfs
+  obtain ⟨x, gs, hr, hq⟩ := ih wf' pl' fs K hfs
   refine ⟨x, gs, by simpa [print] using hr, ?_⟩
   intro q hq'
   rw [lowPrec_paren] at hq'
   simpa [norm] using hq q hq'
 
 theorem main_unary (u : UnOp) (e : Expr) (ih : Main e) : Main (.unary u e) := by
-  intro wf fs K _
-  have wf' : WF e := by simpa [WF] using wf
+  intro wf pl fs K _
+  have wf' : WF e ∧ Plain e := ⟨by simpa [WF] using wf, by simpa [Plain] using pl⟩
   have hex := operand_exact ih wf' (needs (unaryParens u.toOp uprec) e) (.un u :: fs) K
     (fun h => needs_false_lowPrec h (fun _ hc => unaryParens_false hc))
   have h1 : step ⟨.operand, fs, K⟩ (.op (unTok u)) = some ⟨.operand, .un u :: fs, K⟩ := by
@@ -251,9 +252,11 @@ theorem main_unary (u : UnOp) (e : Expr) (ih : Main e) : Main (.unary u e) := by
   simp [norm, Frame.plug]
 
 theorem main_binary (b : BinOp) (l r : Expr) (ihl : Main l) (ihr : Main r) : Main (.binary b l r) := by
-  intro wf fs K hfs
-  have wfl : WF l := by simp [WF] at wf; exact wf.1
-  have wfr : WF r := by simp [WF] at wf; exact wf.2
+  intro wf pl fs K hfs
+  simp only [WF] at wf
+  simp only [Plain] at pl
+  have wfl : WF l ∧ Plain l := ⟨wf.1, pl.1⟩
+  have wfr : WF r ∧ Plain r := ⟨wf.2, pl.2⟩
   rw [lowPrec_binary] at hfs
   have hb := Nat.le_of_lt (bprec_lt_uprec b)
   -- left operand
@@ -288,37 +291,39 @@ theorem main_binary (b : BinOp) (l r : Expr) (ihl : Main l) (ihr : Main r) : Mai
     simp [norm, Frame.plug]
 
 theorem main_selector (e : Expr) (n : Nat) (ih : Main e) : Main (.selector e n) := by
-  intro wf fs K _
-  have wf' : WF e := by simpa [WF] using wf
-  have hex := operand_exact ih wf' (isOperator e) fs K (fun h => lowPrec_of_not_isOperator h)
+  intro wf pl fs K _
+  simp only [WF] at wf
+  simp only [Plain] at pl
+  have hex := operand_exact ih ⟨wf, pl.1⟩ false fs K (fun _ => lowPrec_of_not_isOperator pl.2)
+  simp only [wrap, wrapP, Bool.false_eq_true, if_false] at hex
   apply main_of_exact
   rw [print, run_append_of hex]
   simp [run, step, norm]
 
 theorem main_index (e i : Expr) (ihe : Main e) (ihi : Main i) : Main (.index e i) := by
-  intro wf fs K _
-  have wfe : WF e := by simp [WF] at wf; exact wf.1
-  have wfi : WF i := by simp [WF] at wf; exact wf.2
-  have hex := operand_exact ihe wfe (isOperator e) fs K (fun h => lowPrec_of_not_isOperator h)
-  obtain ⟨x, gs, hr, hc⟩ := ihi.closed wfi (.index fs (wrapP (isOperator e) (norm e)) :: K)
+  intro wf pl fs K _
+  simp only [WF] at wf
+  simp only [Plain] at pl
+  have hex := operand_exact ihe ⟨wf.1, pl.1⟩ false fs K (fun _ => lowPrec_of_not_isOperator pl.2.2)
+  simp only [wrap, wrapP, Bool.false_eq_true, if_false] at hex
+  obtain ⟨x, gs, hr, hc⟩ := ihi.closed ⟨wf.2, pl.2.1⟩ (.index fs (norm e) :: K)
   apply main_of_exact
-  have h1 : step ⟨.operator (wrapP (isOperator e) (norm e)), fs, K⟩ .lbrack =
-      some ⟨.operand, [], .index fs (wrapP (isOperator e) (norm e)) :: K⟩ := rfl
-  have h2 : step ⟨.operator x, gs, .index fs (wrapP (isOperator e) (norm e)) :: K⟩ .rbrack =
-      some ⟨.operator (.index (wrapP (isOperator e) (norm e)) (norm i)), fs, K⟩ := by
+  have h1 : step ⟨.operator (norm e), fs, K⟩ .lbrack = some ⟨.operand, [], .index fs (norm e) :: K⟩ := rfl
+  have h2 : step ⟨.operator x, gs, .index fs (norm e) :: K⟩ .rbrack =
+      some ⟨.operator (.index (norm e) (norm i)), fs, K⟩ := by
     simp [step, ret, hc]
   rw [print, run_append_of hex, run_cons_of h1, run_append_of hr, run_cons_of h2]
   simp [run, norm]
 
 theorem mainArgs_nil : MainArgs [] := by
-  intro _ h; exact absurd rfl h
+  intro _ _ h; exact absurd rfl h
 
 theorem mainArgs_cons (a : Expr) (as : List Expr) (iha : Main a) (ihas : MainArgs as) :
     MainArgs (a :: as) := by
-  intro wf _ fs K f pre
-  have wfa : WF a := by simp [WFArgs] at wf; exact wf.1
-  have wfas : WFArgs as := by simp [WFArgs] at wf; exact wf.2
-  obtain ⟨x, gs, hr, hc⟩ := iha.closed wfa (.call fs f pre :: K)
+  intro wf pl _ fs K f pre
+  simp only [WFArgs] at wf
+  simp only [PlainArgs] at pl
+  obtain ⟨x, gs, hr, hc⟩ := iha.closed ⟨wf.1, pl.1⟩ (.call fs f pre :: K)
   cases as with
   | nil =>
     rw [printArgs_single]
@@ -331,7 +336,7 @@ theorem mainArgs_cons (a : Expr) (as : List Expr) (iha : Main a) (ihas : MainArg
     have hcomma : step ⟨.operator x, gs, .call fs f pre :: K⟩ .comma =
         some ⟨.operand, [], .call fs f (pre ++ [norm a]) :: K⟩ := by
       simp [step, ret, hc]
-    obtain ⟨h1, h2⟩ := ihas wfas (by simp) fs K f (pre ++ [norm a])
+    obtain ⟨h1, h2⟩ := ihas wf.2 pl.2 (by simp) fs K f (pre ++ [norm a])
     rw [printArgs_cons2]
     constructor
     · rw [List.append_assoc, run_append_of hr, List.cons_append, run_cons_of hcomma, h1]
@@ -341,22 +346,25 @@ theorem mainArgs_cons (a : Expr) (as : List Expr) (iha : Main a) (ihas : MainArg
 
 theorem main_call (f : Expr) (args : List Expr) (v : Bool) (ihf : Main f) (ihargs : MainArgs args) :
     Main (.call f args v) := by
-  intro wf fs K _
-  have wff : WF f := by simp [WF] at wf; exact wf.1
-  have wfargs : WFArgs args := by simp [WF] at wf; exact wf.2.1
-  have wfv : v = true → args ≠ [] := by simp [WF] at wf; exact wf.2.2
-  have hex := operand_exact ihf wff (isOperator f) fs K (fun h => lowPrec_of_not_isOperator h)
+  intro wf pl fs K _
+  simp only [WF] at wf
+  simp only [Plain] at pl
+  have hex := operand_exact ihf ⟨wf.1, pl.1⟩ (callParens f) fs K (fun h => by
+    apply lowPrec_of_not_isOperator
+    cases ho : isOperator f with
+    | false => rfl
+    | true => rw [pl.2.2 ho] at h; cases h)
   apply main_of_exact
-  have h1 : step ⟨.operator (wrapP (isOperator f) (norm f)), fs, K⟩ .lparen =
-      some ⟨.operand, [], .call fs (wrapP (isOperator f) (norm f)) [] :: K⟩ := rfl
+  have h1 : step ⟨.operator (wrapP (callParens f) (norm f)), fs, K⟩ .lparen =
+      some ⟨.operand, [], .call fs (wrapP (callParens f) (norm f)) [] :: K⟩ := rfl
   rw [print, run_append_of hex, run_cons_of h1]
   cases args with
   | nil =>
     cases v with
-    | true => exact absurd rfl (wfv rfl)
+    | true => exact absurd rfl (wf.2.2 rfl)
     | false => simp [printArgs, run, step, norm, normArgs]
   | cons a as =>
-    obtain ⟨h2, h3⟩ := ihargs wfargs (by simp) fs K (wrapP (isOperator f) (norm f)) []
+    obtain ⟨h2, h3⟩ := ihargs wf.2.1 pl.2.1 (by simp) fs K (wrapP (callParens f) (norm f)) []
     cases v with
     | true => simpa [norm] using h3
     | false => simpa [norm] using h2
